@@ -180,6 +180,8 @@ class RegWP(IdEnvWP):
 def vcs_for(n):
     name = f'linear_do_vgrad_reg[n={n}]'
     docs, fn = load(SRC, 'linear::function_t::do_vgrad', 'do_vgrad', None)
+    import parts_smt
+    fn = parts_smt.canon_do_vgrad(fn)       # locals named by the accessor call that initialises them (alpha-renaming)
     wp = RegWP(name, n)
     wp.bind_params(fn)
     l1 = wp.env['self.m_l1reg'] = wp.fresh('Real', 'l1', 'double')
